@@ -11,16 +11,18 @@ import (
 //
 // Windows of the tree as written (each is one contiguous stretch of writes inside WriteBlockWithState → reorg → insert):
 //
-//	head-before-batch : LastBlock names a block whose header is not stored (reorg → insert re-pointed the head markers to
-//	                    the incoming block before WriteBlockWithState flushed that block's batch)
-//	canon-before-head : the most recent write is a single canonical-number put at or below the head's height naming a
-//	                    block that is not the head's ancestor (insert wrote the number, not yet LastBlock)
+//	head-before-batch : LastBlock names the INCOMING block of a reorganising import and that block's header is not stored
+//	                    (reorg → insert re-pointed the head markers before WriteBlockWithState flushed the block's batch)
+//	canon-before-head : inside a reorganising import the most recent write is a single canonical-number put at or below the
+//	                    head's height naming a block that is not the head's ancestor (insert wrote the number, not yet LastBlock)
 type Analysis struct {
 	b         *Built
 	log       []Event
 	lastBlock []common.Hash // lastBlock[p]: LastBlock after the first p events
 	headGone  []bool        // header of lastBlock[p] not stored after p events
 	trieEv    []bool
+	tdAt      []int // tdAt[p]: index of the most recent `put td` among the first p events (-1: none)
+	lbSetAt   []int // lbSetAt[p]: index of the event that last wrote LastBlock among the first p events (-1: none)
 	Counts    map[string]int
 	bf, at    int // -1 unknown, 0, 1
 }
@@ -32,8 +34,15 @@ func analyse(b *Built, log []Event, final common.Hash) *Analysis {
 	lb := t.Nodes[0].Block.Hash()
 	a.lastBlock = append(a.lastBlock, lb)
 	a.headGone = append(a.headGone, false)
+	a.tdAt = append(a.tdAt, -1)
+	a.lbSetAt = append(a.lbSetAt, -1)
+	lastTd, lastLB := -1, -1
 	for i := range log {
 		ev := &log[i]
+		if ev.Kind == 'p' && parseKey(ev.Ws[0].Key).Class == KTd {
+			lastTd = i
+		}
+		a.tdAt = append(a.tdAt, lastTd)
 		a.trieEv = append(a.trieEv, isTrieBatch(ev) && len(ev.Ws) > 0)
 		for _, w := range ev.Ws {
 			ki := parseKey(w.Key)
@@ -43,6 +52,7 @@ func analyse(b *Built, log []Event, final common.Hash) *Analysis {
 				hdr[ki.Hash] = !w.Del
 			case KLastBlock:
 				lb = common.BytesToHash(w.Val)
+				lastLB = i
 				if ev.Kind == 'b' {
 					a.at = 1
 				} else if a.at != 1 {
@@ -53,6 +63,7 @@ func analyse(b *Built, log []Event, final common.Hash) *Analysis {
 		a.Counts["event:"+string(ev.Kind)]++
 		a.lastBlock = append(a.lastBlock, lb)
 		a.headGone = append(a.headGone, !hdr[lb])
+		a.lbSetAt = append(a.lbSetAt, lastLB)
 	}
 	// import segments
 	for i := 0; i < len(log); i++ {
@@ -147,14 +158,32 @@ func (a *Analysis) Window(p int) string {
 	if p < 0 || p >= len(a.lastBlock) {
 		return ""
 	}
-	if a.headGone[p] {
-		return "head-before-batch"
+	// both windows exist only inside an import that reorganises: the block being written (most recent `put td`) does
+	// not extend the block that was head when its import began
+	t := a.b.Tree
+	inReorg, incoming := false, common.Hash{}
+	if k := a.tdAt[p]; k >= 0 {
+		incoming = parseKey(a.log[k].Ws[0].Key).Hash
+		if id, ok := t.ByHash[incoming]; ok && t.Nodes[id].Block.ParentHash() != a.log[k].Head {
+			inReorg = true
+		}
 	}
-	if p >= 1 {
+	if a.headGone[p] {
+		// which import wrote this head marker? (after an injected failure the node may have gone on importing)
+		if w := a.lbSetAt[p]; w >= 0 {
+			if k := a.tdAt[w+1]; k >= 0 {
+				x := parseKey(a.log[k].Ws[0].Key).Hash
+				if id, ok := t.ByHash[x]; ok && x == a.lastBlock[p] && t.Nodes[id].Block.ParentHash() != a.log[k].Head {
+					return "head-before-batch"
+				}
+			}
+		}
+		return "head-names-missing-block"
+	}
+	if p >= 1 && inReorg {
 		ev := &a.log[p-1]
 		if ev.Kind == 'p' {
 			if ki := parseKey(ev.Ws[0].Key); ki.Class == KCanon {
-				t := a.b.Tree
 				if hid, ok := t.ByHash[a.lastBlock[p]]; ok && ki.Num <= t.Nodes[hid].Block.NumberU64() {
 					named := common.BytesToHash(ev.Ws[0].Val)
 					if anc := t.Ancestor(hid, ki.Num); anc < 0 || t.Nodes[anc].Block.Hash() != named {
